@@ -202,6 +202,8 @@ def run(chk, repo, tier):
 
     unit_label_order_rule(chk, repo, 'C14-c')
     rescaled_copy_rule(chk, repo, 'C14-c')
+    from .c15 import integrate_selection_rule
+    integrate_selection_rule(chk, repo, 'C14-c')
     fto_ = repo.func('radiometry.Spectrum.to')
     early = []
     for loop in [n for n in ast.walk(fto_.node) if isinstance(n, ast.For)]:
